@@ -34,7 +34,9 @@ def build_traj(case):
     xyz = (np.array(case["xyz"], dtype=np.float64) / unit).astype(np.float32)
     assert np.array_equal(xyz.astype(np.float64) * unit, np.array(case["xyz"], dtype=np.float64)), "inexact coordinates"
     t = md.Trajectory(xyz, top)
-    if isinstance(case.get("box"), dict):
+    if isinstance(case.get("box"), dict) and "tri_frames" in case["box"]:
+        t.unitcell_vectors = np.array(case["box"]["tri_frames"], dtype=np.float64) / unit
+    elif isinstance(case.get("box"), dict):
         v = np.array(case["box"]["tri"], dtype=np.float64) / unit
         t.unitcell_vectors = np.tile(v, (len(xyz), 1, 1))
     elif case.get("box") is not None:
@@ -214,6 +216,116 @@ def k_dipole(case, t=None):
     return {"mu": _ok(lambda: ratios(md.geometry.dipole_moments(t, q)))}
 
 
+# ---- option handling (arguments handed over the way a caller would: omitted, keyword strings, lists, arrays) -----
+def _arr_arg(spec):
+    """{"list": nested} -> the nested Python list itself; {"array": nested, "shape": [...]} -> integer ndarray;
+    {"tuple": nested} -> tuple of tuples; {"str": s} -> s"""
+    if "str" in spec:
+        return spec["str"]
+    if "list" in spec:
+        return spec["list"]
+    if "tuple" in spec:
+        return tuple(tuple(r) if isinstance(r, list) else r for r in spec["tuple"])
+    return np.array(spec["array"], dtype=int).reshape(spec["shape"])
+
+
+def k_contacts_opt(case):
+    t = build_traj(case)
+    if not case.get("has_top", True):
+        t = md.Trajectory(t.xyz, None)
+    kw = {}
+    for k_case, k_arg in (("scheme", "scheme"), ("ignore_nonprotein", "ignore_nonprotein"), ("periodic", "periodic"),
+                          ("soft_min", "soft_min")):
+        if case.get(k_case) is not None:
+            kw[k_arg] = case[k_case]
+    args = []
+    if case.get("contacts") is not None:
+        args.append(_arr_arg(case["contacts"]))
+    try:
+        d, pairs = md.compute_contacts(t, *args, **kw)
+    except Exception as e:  # noqa: BLE001
+        return err(e)
+    q, resid = d2_units(d, case["unit"])
+    return {"pairs": np.asarray(pairs).reshape(-1, 2).tolist(), "d2": q.tolist(), "resid": resid,
+            "shape": list(d.shape)}
+
+
+def k_squareform_opt(case):
+    d = np.array(case["d"], dtype=np.float32).reshape(case["d_shape"])
+    try:
+        m = md.geometry.squareform(d, _arr_arg(case["pairs"]))
+    except Exception as e:  # noqa: BLE001
+        return err(e)
+    return {"shape": list(m.shape), "m": np.rint(m).astype(np.int64).tolist(), "exact": bool(np.all(m == np.rint(m)))}
+
+
+def k_rdf_opt(case):
+    t = build_traj(case)
+    kw = {}
+    if case.get("r_range") is not None:
+        kw["r_range"] = [n / d for n, d in case["r_range"]]
+    if case.get("n_bins") is not None:
+        kw["n_bins"] = case["n_bins"]
+    if case.get("bin_width") is not None:
+        kw["bin_width"] = case["bin_width"][0] / case["bin_width"][1]
+    pairs = np.array(case["pairs"], dtype=int).reshape(-1, 2)
+    out = {}
+    for name, f in (("rdf", lambda: md.compute_rdf(t, pairs, **kw)),
+                    ("rdf_t", lambda: md.compute_rdf_t(t, pairs, np.array([[0, 0]]), **kw))):
+        try:
+            r, g = f()
+            out[name] = {"n": int(len(r)), "g_shape": list(np.asarray(g).shape), "r": ratios(r)}
+        except Exception as e:  # noqa: BLE001
+            out[name] = err(e)
+    return out
+
+
+def _pyv(v):
+    if "int" in v:
+        return int(v["int"])
+    if "float" in v:
+        return float(v["float"])
+    if "npint" in v:
+        return np.int64(v["npint"])
+    if "s" in v:
+        return v["s"]
+    if "none" in v:
+        return None
+    if "ndarray" in v:
+        return np.array(v["ndarray"], dtype=int)
+    if "list" in v:
+        return [_pyv(x) for x in v["list"]]
+    if "tuple" in v:
+        return tuple(_pyv(x) for x in v["tuple"])
+    raise KeyError(str(v))
+
+
+def k_order_opt(case):
+    t = build_traj(case)
+    spec = case["indices"]
+    kw = {}
+    if "omit" not in spec:
+        kw["indices"] = spec["str"] if "str" in spec else _pyv(spec["val"])
+    out = {}
+    try:
+        d = md.compute_directors(t, **kw)
+        out["directors_shape"] = list(np.asarray(d).shape)
+    except Exception as e:  # noqa: BLE001
+        out["directors_err"] = err(e)
+    try:
+        s2 = md.compute_nematic_order(t, **kw)
+        out["s2_shape"] = list(np.asarray(s2).shape)
+    except Exception as e:  # noqa: BLE001
+        out["s2_err"] = err(e)
+    try:
+        from mdtraj.geometry.order import _get_indices
+        g = _get_indices(t, kw["indices"]) if kw else None
+        out["groups"] = None if g is None else [[int(x) for x in grp] for grp in g]
+    except Exception as e:  # noqa: BLE001
+        out["groups_err"] = err(e)
+    return out
+
+
 def _real(a):
     a = np.asarray(a)
     if np.iscomplexobj(a):
@@ -362,7 +474,8 @@ def k_history(case):
     return {"steps": out}
 
 
-KINDS = {"history": k_history, "inertia": k_inertia, "order": k_order, "rdf_t": k_rdf_t, "contacts": k_contacts, "squareform": k_squareform, "centres": k_centres, "rg": k_rg, "shape": k_shape,
+KINDS = {"contacts_opt": k_contacts_opt, "squareform_opt": k_squareform_opt, "rdf_opt": k_rdf_opt,
+         "order_opt": k_order_opt, "dipole_pbc": k_dipole, "history": k_history, "inertia": k_inertia, "order": k_order, "rdf_t": k_rdf_t, "contacts": k_contacts, "squareform": k_squareform, "centres": k_centres, "rg": k_rg, "shape": k_shape,
          "density": k_density, "rdf": k_rdf, "drid": k_drid, "karplus": k_karplus, "dipole": k_dipole}
 
 
